@@ -381,6 +381,19 @@ def check(repo):
     r1.require(n_agree >= 20, schemes[0].method("_Enc"), "agreements floor", "only %d label/key/mask agreements established (expected >= 20)" % n_agree)
     _check_pi2lev_split(repo, r3, [s for s in schemes if s.name == "CJJ14.Pi2Lev"][0])
     _check_capacity(repo, r4, schemes)
+    # DP17's search cuts a bucket into slots of param_identifier_cipher_len bytes: that has to be the length of what _Enc writes into a slot
+    # for every configuration (the agreement of slot lengths is established by R5.1; a disagreement is a parse failure here)
+    from . import c05 as _c05
+    for rr in _c05.check(repo):
+        if rr.id == "R5.1":
+            for f in rr.findings:
+                if "slot lengths differ" in f.construct and "DP17" in f.message:
+                    f.rule = "R1.2"
+                    f.message = "the reader cuts buckets into slots of a length the writer does not produce for every configuration (%s)" % f.message
+                    r2.findings.append(f)
+                    r2.obligations += 1
+            r2.obligations += 1
+            r2.discharged += 1
     return rules
 
 
@@ -1070,6 +1083,8 @@ def _check_capacity(repo, r4, schemes):
                 r4.require(w == want, enc, "list-size width holds 2^t",
                            "ANSS16: the list size n_w <= 2^t is encoded in %s bytes; t+1 bits (ceil((t+1)/8) bytes) are needed, otherwise a list of 256, 65536, ... "
                            "postings (or N = 1) raises OverflowError" % show(w, maxdepth=5)[:80], c)
+        if s.name == "CJJ14.PiPtr":
+            _check_piptr_pointer_width(repo, r4, s, enc, ft)
         if s.name == "DP17.Pi":
             # recognised by shape, whatever the locals are called: l = ceil(log2 N); spacing = ceil(l / <count>); levels l - i * spacing
             from ..terms import walk as _walk
@@ -1097,6 +1112,73 @@ def _check_capacity(repo, r4, schemes):
                                                        isinstance(x[3], tuple) and x[3][:2] == ("binop", "Mult") for x in _walk(tt))]
                 r4.require(bool(lv), enc, "DP17 levels list", "DP17: the list of stored levels (l - i * p) vanished")
             check_dp17_level_choice(repo, r4, s)
+
+
+def _num_eval(t, env):
+    """Numeric value of an arithmetic derivation term for the assignment env {term: number}; raises ValueError when not understood."""
+    import math
+    if t in env:
+        return env[t]
+    tag = t[0]
+    if tag == "const" and isinstance(t[1], (int, float)) and not isinstance(t[1], bool):
+        return t[1]
+    if tag == "binop":
+        a, b = _num_eval(t[2], env), _num_eval(t[3], env)
+        ops = {"Add": lambda: a + b, "Sub": lambda: a - b, "Mult": lambda: a * b, "Div": lambda: a / b, "FloorDiv": lambda: a // b, "Mod": lambda: a % b,
+               "Pow": lambda: a ** b if abs(b) < 64 else (_ for _ in ()).throw(ValueError()), "LShift": lambda: a << b, "RShift": lambda: a >> b}
+        if t[1] in ops:
+            return ops[t[1]]()
+    if tag == "unop" and t[1] == "USub":
+        return -_num_eval(t[2], env)
+    if tag == "call" and t[1] in ("math.ceil", "math.floor", "math.log2", "int", "abs") and len(t[2]) == 1:
+        v = _num_eval(t[2][0], env)
+        return {"math.ceil": math.ceil, "math.floor": math.floor, "math.log2": math.log2, "int": int, "abs": abs}[t[1]](v)
+    if tag == "call" and t[1] in ("max", "min") and t[2]:
+        vals = [_num_eval(a, env) for a in t[2]]
+        return max(vals) if t[1] == "max" else min(vals)
+    if tag == "mcall" and t[2] == "bit_length" and not t[3]:
+        return int(_num_eval(t[1], env)).bit_length()
+    raise ValueError("not arithmetic: %r" % (tag,))
+
+
+def _check_piptr_pointer_width(repo, r4, s, enc, ft):
+    """PiPtr encodes positions 1 .. A_len - 1 of the array with a width computed from A_len: for every array length (evaluated for
+    2 .. 70000, which covers the boundaries 256 and 65536) the largest position must fit into that many bytes."""
+    alloc = None
+    for n in ft.cfg.nodes:
+        st = n.stmt
+        if n.kind == "stmt" and isinstance(st, ast.Assign) and isinstance(st.value, ast.BinOp) and isinstance(st.value.op, ast.Mult):
+            for lst, cnt in ((st.value.left, st.value.right), (st.value.right, st.value.left)):
+                if isinstance(lst, ast.List) and len(lst.elts) == 1 and isinstance(lst.elts[0], ast.Constant) and lst.elts[0].value is None:
+                    alloc = ft.term(cnt, n.id)
+    widths = []
+    for n in ft.cfg.nodes:
+        if n.stmt is None or n.ast is None:
+            continue
+        for c in ast.walk(n.stmt if n.kind != "test" else n.ast):
+            if isinstance(c, ast.Call) and (dotted(c.func) or "").endswith("int_to_bytes"):
+                ct = ft.term(c, n.id)
+                if ct[0] == "call" and len(ct[2]) == 2 and any(isinstance(x, tuple) and x and x[0] == "mcall" and x[2] == "pop" for x in walk(ct[2][0])):
+                    widths.append((ct[2][1], c))
+    if not r4.require(alloc is not None and bool(widths), enc, "PiPtr pointer width found", "PiPtr: the array allocation / the fixed-width encoding of array positions vanished"):
+        return
+    for w, c in widths:
+        bad = None
+        try:
+            for alen in list(range(2, 1200)) + list(range(65000, 66100)) + [2 ** 24 - 1, 2 ** 24, 2 ** 24 + 1]:
+                width = _num_eval(w, {alloc: alen})
+                if not (isinstance(width, int) and width >= 1 and (alen - 1) < 256 ** width):
+                    bad = (alen, width)
+                    break
+        except (ValueError, ZeroDivisionError, OverflowError, TypeError) as e:
+            bad = ("?", str(e)[:40])
+        desc = {"scheme": s.name, "width": show(w, maxdepth=5)[:100]}
+        if bad is None:
+            r4.ok(desc)
+        else:
+            r4.fail_fn(enc, c, "pointer width holds every position",
+                       "PiPtr: positions 1 .. |A| - 1 are encoded in %s bytes; for |A| = %s that is %s byte(s), too few for position %s: EDBSetup raises OverflowError "
+                       "(or a pointer is truncated) for a database with exactly that many blocks" % (show(w, maxdepth=5)[:80], bad[0], bad[1], bad[0] - 1 if isinstance(bad[0], int) else "?"), witness=desc)
 
 
 def check_dp17_level_choice(repo, r4, s):
